@@ -271,7 +271,7 @@ const EXTRA: &[&str] = &[
 ];
 
 pub fn search(unit: &str, _tag: &str, tier: &str) -> Option<Value> {
-    if unit == "c17_costs" { return search_costs(tier); }
+    if unit == "c17_costs" || unit == "c17_maxcost" { return search_costs(tier); }
     let what = match unit { "c17_firsts" => "firsts", "c17_follows" => "follows", "c17_haspath" => "haspath", _ => "all" };
     for g in EXTRA.iter().chain(grms::FIXED.iter()) {
         let o = run(g, what);
